@@ -56,3 +56,15 @@ Theorem C11_puts_succeed : forall H U PS, C11_hyps H U PS ->
   sinv (Jc H U PS) (Gc H U PS) (post H) (call_ok PS) callss (conc_run H callss fs0 sched).
 Proof. exact conc_sound_hyps. Qed.
 Print Assumptions C11_puts_succeed.
+
+(* a GetBytes that is itself interleaved, operation by operation, with any writers and served
+   torn views returns only bytes that a Put stored for that very id, with matching hash *)
+Theorem C11_lookup_is_some_put : forall H U PS, C11_hyps H U PS -> lookup_hyps H U ->
+  forall callss fs0 sched,
+  Jc H U PS (init_sys fs0) -> Forall (Forall (call_ok PS)) callss ->
+  forall i calls cl k id d out size tm,
+  nth_error callss i = Some calls -> nth_error (fst (conc_run H callss fs0 sched)) i = Some cl ->
+  nth_error calls k = Some (CGetBytes id) -> nth_error (results cl) k = Some (XBytes (Found d out size tm)) ->
+  out = H d /\ exists tm', PS id d tm'.
+Proof. exact lookup_is_some_put_hyps. Qed.
+Print Assumptions C11_lookup_is_some_put.
